@@ -343,6 +343,30 @@ func wrap(old string, wrap int) string {
 	return string(new)
 }
 
+// inInputOrder passes on the pairs it receives in the order of their idx fields (0, 1, 2...), holding back
+// any that arrive early, so that output written to a single stream retains the order of the input
+func inInputOrder(cIn chan alignPair) chan alignPair {
+	cOut := make(chan alignPair)
+	go func() {
+		held := make(map[int]alignPair)
+		counter := 0
+		for pair := range cIn {
+			held[pair.idx] = pair
+			for {
+				next, ok := held[counter]
+				if !ok {
+					break
+				}
+				cOut <- next
+				delete(held, counter)
+				counter++
+			}
+		}
+		close(cOut)
+	}()
+	return cOut
+}
+
 // writePairwiseAlignment writes the pairwise alignments between reference and queries to a directory, p, one fasta
 // file per query
 func writePairwiseAlignment(p string, w int, cPair chan alignPair, cWriteDone chan bool, cErr chan error, omitRef bool) {
@@ -352,7 +376,7 @@ func writePairwiseAlignment(p string, w int, cPair chan alignPair, cWriteDone ch
 	var err error
 
 	if p == "stdout" {
-		for AP := range cPair {
+		for AP := range inInputOrder(cPair) {
 			if !omitRef {
 				_, err = fmt.Fprintln(os.Stdout, ">"+AP.refname)
 				if err != nil {
